@@ -21,7 +21,7 @@ RULE = (
     "evaluated), predicate P = train>=1 and cal>=1 and alpha*(1+1/cal)<1; (b) every alpha in {k/100} x n in [2, min+12] (n<=60): the real "
     "nonparametric model on real handler frames must produce finite intervals iff P, and its observed calibration size must equal n-train; "
     "(c) real client for nonparametric/gaussian/bootstrap, n in [min-1, min+12]/[min-1,min+3], multi-alpha, non-modelled reporting units "
-    "present, duplicate ids (exact copy / other counts / other percent). non-trivial = the state sits within 12 units of a decision boundary (minimum, or P flips)"
+    "present, 1 / 3 / 5 covariates, duplicate ids (exact copy / other counts / other percent). non-trivial = the state sits within 12 units of a decision boundary (minimum, or P flips)"
 )
 ASSUMPTIONS = [
     "P's training-row expression is the source line of ConformalElectionModel.get_unit_prediction_interval_bounds (harness error if it cannot be extracted)",
@@ -29,10 +29,11 @@ ASSUMPTIONS = [
 ]
 SELFCHECK_INDEX = 40
 _TRAIN_EXPR = None
+_EARLIER = []
 
 
 def worker_init():
-    global _TRAIN_EXPR
+    global _TRAIN_EXPR, _EARLIER
     from elexmodel.models.ConformalElectionModel import ConformalElectionModel
 
     src = inspect.getsource(ConformalElectionModel.get_unit_prediction_interval_bounds)
@@ -40,15 +41,37 @@ def worker_init():
     if not m:
         raise RuntimeError("cannot locate the train_rows expression in get_unit_prediction_interval_bounds")
     _TRAIN_EXPR = compile(m.group(1).strip(), "<train_rows>", "eval")
+    # one-line assignments of plain names that precede it: the expression may refer to such locals
+    _EARLIER = []
+    for line in src[: m.start()].splitlines():
+        a = re.match(r"^\s*([A-Za-z_]\w*)\s*=\s*(.+)$", line)
+        if a and a.group(1) not in ("conf_frac", "train_rows"):
+            try:
+                _EARLIER.append((a.group(1), compile(a.group(2).strip(), "<local>", "eval")))
+            except SyntaxError:
+                pass
 
 
-class _Self:
-    def __init__(self, n):
-        self.n_train = n
+def _self_stub(n):
+    """the model object as the expression sees it: a real nonparametric model without covariates, n_train = n"""
+    from elexmodel.models.NonparametricElectionModel import NonparametricElectionModel
+
+    m = NonparametricElectionModel({})
+    m.n_train = n
+    return m
 
 
 def _train_rows(n, conf_frac):
-    return int(eval(_TRAIN_EXPR, {"math": math, "self": _Self(n), "conf_frac": conf_frac, "max": max, "min": min, "int": int}))
+    env = {"math": math, "self": _self_stub(n), "conf_frac": conf_frac, "max": max, "min": min, "int": int, "len": len}
+    try:
+        return int(eval(_TRAIN_EXPR, env))
+    except NameError:
+        for name, expr in _EARLIER:
+            try:
+                env[name] = eval(expr, env)
+            except Exception:
+                pass
+        return int(eval(_TRAIN_EXPR, env))
 
 
 def _P(model, alpha, n):
@@ -87,6 +110,11 @@ def cases(tier, seed):
         for n in range(mn - 2, mn + 4):
             for extras in (0, 2):
                 out.append({"kind": "client", "pm": pm, "alphas": [0.7, 0.9], "n": n, "extras": extras, "seed": seed})
+    # covariates do not enter the minimum: with a feature list the run must still complete at the minimum
+    for pm, alphas_, mn in (("nonparametric", [0.7], 6), ("nonparametric", [0.9], 19), ("gaussian", [0.7, 0.9], 7)):
+        for nfeat in (1, 3, 5):
+            for n in range(mn - 1, mn + 4):
+                out.append({"kind": "client", "pm": pm, "alphas": alphas_, "n": n, "extras": 0, "nfeat": nfeat, "seed": seed})
     for pm, n in (("nonparametric", 12), ("gaussian", 12), ("bootstrap", 14), ("nonparametric", 4)):
         for dup in ("exact", "other_counts", "other_percent"):
             out.append({"kind": "client", "pm": pm, "alphas": [0.7], "n": n, "extras": 0, "dup": dup, "seed": seed})
@@ -213,6 +241,15 @@ def evaluate(case):
     setup = {"nonparametric": "np1", "gaussian": "ga1", "bootstrap": "bs1"}[pm]
     cfg = S.cfg_for(setup, "pc_cf", "drop", 100)
     cfg["alphas"] = list(case["alphas"])
+    if case.get("nfeat"):
+        import random
+
+        rng = random.Random(case["seed"] * 13 + case["n"])
+        names = [E.FEATURE] + [f"x{j}" for j in range(2, case["nfeat"] + 1)]
+        for u in units:
+            u["extra_baseline"] = {nm: round(rng.random(), 3) for nm in names[1:]}
+        cfg["features"] = names
+        cov["runs_with_covariates"] += 1
     baseline, feed = E.frames(units, cfg)
     if case.get("dup"):
         import pandas as pd
@@ -258,7 +295,7 @@ def evaluate(case):
             cov["exactly_minimum"] += 1
     if outcome != expected:
         rel = "below" if n_rep < mn else ("at" if n_rep == mn else "above")
-        V.append({"sig": f"C14:{pm}:{rel}-minimum:{outcome}", "msg": f"{pm} alphas={cfg['alphas']} modelled reporting units={n_rep} (minimum {mn}, extras={case['extras']}, dup={case.get('dup', False)}): expected {expected}, got {outcome} {where}"})
+        V.append({"sig": f"C14:{pm}:{rel}-minimum:{outcome}", "msg": f"{pm} alphas={cfg['alphas']} modelled reporting units={n_rep} (minimum {mn}, extras={case['extras']}, dup={case.get('dup', False)}, covariates={case.get('nfeat', 0)}): expected {expected}, got {outcome} {where}"})
     return {"violations": V, "cov": dict(cov), "outcome": f"{pm}:{outcome}", "nontrivial": abs(n_rep - mn) <= 12}
 
 
@@ -266,4 +303,4 @@ def post(cases, results, tier, seed):
     return {"cov": {}}
 
 
-REQUIRED_COUNTERS = {"arith_states": 1000000, "P_true_finite": 100, "below_minimum": 10, "exactly_minimum": 5, "duplicate_ids": 9}
+REQUIRED_COUNTERS = {"arith_states": 1000000, "P_true_finite": 100, "below_minimum": 10, "exactly_minimum": 5, "duplicate_ids": 9, "runs_with_covariates": 30}
